@@ -397,7 +397,11 @@ class Ctx:
         self.coverage = {}
         self.assumptions = []
         self.replay_n = 0
-        os.makedirs(os.path.join(ROOT, 'replays', prop), exist_ok=True)
+        rdir = os.path.join(ROOT, 'replays', prop)
+        os.makedirs(rdir, exist_ok=True)
+        for fn in os.listdir(rdir):          # replays of an earlier run with this seed are stale
+            if fn.startswith('%d-' % seed):
+                os.remove(os.path.join(rdir, fn))
         os.makedirs(os.path.join(ROOT, 'evidence'), exist_ok=True)
 
     def quick(self):
